@@ -1144,3 +1144,7 @@ pub mod tests {
         assert!(ops.is_empty());
     }
 }
+
+#[cfg(kani)]
+#[path = "/verif/units/kani/update_branch_updater.rs"]
+pub(crate) mod verif_kani;
